@@ -134,6 +134,23 @@ def run(ctx):
                 events.append({"kind": "shape", "same": bool(type(o) is optical_signal and o.n_pol == npol and len(o) == n and o.signal.shape == sig.signal.shape)})
                 meta.append(("shape", kind))
         ctx.case(("laws", n % 2, n > 100, npol, it % 2, al > 0, b3 != 0, it % 5, bool(np.any(np.all(x == 0, axis=-1)))))
+    # very lossy spans in each branch of FIBER (dispersionless closed form, second-order only, third-order only): power law and span additivity
+    for it, (al, b2, b3, L, L2) in enumerate([(2.0, 0.0, 0.0, 75.0, 45.0), (1.5, 0.0, 0.0, 160.0, 160.0), (3.0, -20.0, 0.0, 60.0, 40.0), (2.5, 0.0, 0.3, 50.0, 70.0)]):
+        fs = setfs(it % 2)
+        rs = np.random.RandomState(4000 + it)
+        x = (rs.randn(2, 64) + 1j * rs.randn(2, 64)) * 0.1
+        sig = optical_signal(x if it % 2 else x[0])
+        with deadline(120):
+            one = FIBER(sig, L + L2, al, b2, b3)
+            two = FIBER(FIBER(sig, L, al, b2, b3), L2, al, b2, b3)
+        law("two-spans=one-span", two.signal, one.signal, dB=al * (L + L2))
+        ein = np.sum(np.abs(np.atleast_2d(sig.signal)) ** 2, axis=-1)
+        eout = np.sum(np.abs(np.atleast_2d(one.signal)) ** 2, axis=-1)
+        for p in range(len(ein)):
+            ratio = eout[p] / (ein[p] * 10 ** (-al * (L + L2) / 10))
+            events.append({"kind": "energy", "what": "FIBER", "ppb": int(min(10 ** 9, abs(ratio - 1) * 1e9)) if np.isfinite(ratio) else 10 ** 9, "dB": int(math.ceil(al * (L + L2)))})
+            meta.append(("energy", "FIBER"))
+        ctx.case(("very-lossy", b2 != 0, b3 != 0, int(al * (L + L2))))
     gv.clean()
     for idx, clause in ctx.validate("ChannelTrace", events, note="laws/energies"):
         m = meta[idx - 1]
